@@ -29,10 +29,10 @@
 (***************************************************************************)
 EXTENDS RespReader
 
-CONSTANTS Methods, Versions, CTypes, AEs, Pres, Lens, Fill, MaxOps
+CONSTANTS Methods, Versions, CTypes, AEs, Pres, Resps, Lens, Fill, MaxOps
 
-VARIABLES cfg, written, nops, fin, run, step
-vars == <<cfg, written, nops, fin, run>>
+VARIABLES cfg, written, nops, hw, fin, run, step
+vars == <<cfg, written, nops, hw, fin, run>>
 
 Proj == [raised |-> run = "raised"]
 Obs(a, args) == [act |-> a, args |-> args, exp |-> Proj']
@@ -41,10 +41,15 @@ InitWith(c) ==
     /\ cfg = c
     /\ written = <<>>          \* runs <<n, b>>
     /\ nops = 0
+    /\ hw = FALSE             \* a flush before finish has committed status line and headers
     /\ fin = FALSE
     /\ run = "running"
     /\ step = [act |-> "init", args |-> <<>>, exp |-> [raised |-> FALSE]]
-InitState == \E c \in [method : Methods, version : Versions, ctype : CTypes, ae : AEs, pre : Pres] : InitWith(c)
+(* resp: "200" plain; "204" = the handler sets status 204 and writes nothing; "304" = the request carries an
+   If-None-Match equal to the entity tag of the complete body, so finish() substitutes a 304 unless a flush
+   has committed the 200 before *)
+InitState == \E c \in [method : Methods, version : Versions, ctype : CTypes, ae : AEs, pre : Pres, resp : Resps] :
+                 (c.method = "HEAD" => c.resp = "200") /\ InitWith(c)
 
 Running == run = "running"
 
@@ -54,7 +59,7 @@ WriteRuns(rs) ==
     /\ IF fin THEN run' = "raised" /\ UNCHANGED written
               ELSE written' = written \o rs /\ UNCHANGED run
     /\ nops' = nops + 1
-    /\ UNCHANGED <<cfg, fin>>
+    /\ UNCHANGED <<cfg, hw, fin>>
     /\ step' = Obs("write", <<rs>>)
 
 (* flush() after finish() has nothing to send; whether it raises is not the client's business *)
@@ -62,6 +67,7 @@ Flush ==
     /\ Running
     /\ nops' = nops + 1
     /\ run' \in (IF fin THEN {"running", "raised"} ELSE {"running"})
+    /\ hw' = (hw \/ ~fin)
     /\ UNCHANGED <<cfg, written, fin>>
     /\ step' = Obs("flush", <<>>)
 
@@ -70,19 +76,20 @@ FinishRuns(rs) ==
     /\ IF fin THEN run' = "raised" /\ UNCHANGED <<written, fin>>
               ELSE written' = written \o rs /\ fin' = TRUE /\ UNCHANGED run
     /\ nops' = nops + 1
-    /\ UNCHANGED cfg
+    /\ UNCHANGED <<cfg, hw>>
     /\ step' = Obs("finish", <<rs>>)
 
 End ==
     /\ Running
     /\ run' = "ended" /\ fin' = TRUE
-    /\ UNCHANGED <<cfg, written, nops>>
+    /\ UNCHANGED <<cfg, written, nops, hw>>
     /\ step' = Obs("end", <<>>)
 
 Runs(n) == IF n = 0 THEN <<>> ELSE <<<<n, Fill>>>>
-AWrite == \E n \in Lens : nops < MaxOps /\ WriteRuns(Runs(n))
+LenOK(n) == cfg.resp = "204" => n = 0      \* a 204 handler does not write (a 204 with written chunks, even empty ones, is C02's business)
+AWrite == \E n \in Lens : cfg.resp # "204" /\ nops < MaxOps /\ WriteRuns(Runs(n))
 AFlush == nops < MaxOps /\ Flush
-AFinish == \E n \in Lens : nops < MaxOps /\ FinishRuns(Runs(n))
+AFinish == \E n \in Lens : LenOK(n) /\ nops < MaxOps /\ FinishRuns(Runs(n))
 Next == AWrite \/ AFlush \/ AFinish \/ End
 Spec == InitState /\ [][Next]_<<vars, step>>
 
@@ -108,16 +115,18 @@ SplitComma(v) ==
 ListHas(vals, t) == \E k \in 1..Len(vals) : \E j \in 1..Len(SplitComma(vals[k])) :
                         LowerSeq(Trim(SplitComma(vals[k])[j])) = t
 
+ExpCode == IF cfg.resp = "204" THEN 204 ELSE IF cfg.resp = "304" /\ ~hw THEN 304 ELSE 200
 Transparent(P, gz) ==
     LET ces == ValuesOf(P.hdrs, N_content_encoding)
         enc == Len(ces) = 1 /\ LowerSeq(ces[1]) = V_gzip
     IN
-    /\ P.ok /\ P.complete /\ P.rest = <<>> /\ P.code = 200
-    /\ ListHas(ValuesOf(P.hdrs, N_vary), V_accept_encoding)
-    /\ cfg.pre = "ce" => ces = <<V_br>>
+    /\ P.ok /\ P.complete /\ P.rest = <<>> /\ P.code = ExpCode
+    /\ ListHas(ValuesOf(P.hdrs, N_vary), V_accept_encoding)          \* every status, also 204 and the substituted 304
+    /\ (cfg.pre = "ce" /\ ExpCode # 304) => ces = <<V_br>>          \* (a 304 drops the representation headers)
     /\ cfg.pre # "ce" => (ces = <<>> \/ enc)
     /\ enc => Compressible(cfg.ctype) /\ MentionsGzip(cfg.ae)
-    /\ IF enc THEN gz.used /\ gz.ok /\ gz.enc = P.body /\ gz.dec = Expand(written)
+    /\ IF ExpCode # 200 THEN P.body = <<>>
+       ELSE IF enc THEN gz.used /\ gz.ok /\ gz.enc = P.body /\ gz.dec = Expand(written)
               ELSE P.body = Expand(written)
 
 (* HEAD (C02: "a Content-Length always equals the length of the body a GET would carry"; the output
@@ -133,7 +142,7 @@ HeadMatchesGet(PH, PG) ==
     /\ Len(cl) > 0 => DecVal(cl[1]) = Len(PG.body)
 
 (* properties of the model itself *)
-TypeOK == fin \in BOOLEAN /\ run \in {"running", "raised", "ended"} /\ nops \in 0..MaxOps
+TypeOK == hw \in BOOLEAN /\ fin \in BOOLEAN /\ run \in {"running", "raised", "ended"} /\ nops \in 0..MaxOps
 EndedIsFinished == run = "ended" => fin
 NothingAfterFinish == [][fin => written' = written]_vars
 ExpandLength == Len(Expand(written)) = Total(written)
